@@ -98,7 +98,7 @@ def run(run):
         cfgs = [(None, False), (None, True)] + [(c, False) for c in frag[theme]]
         for container, scripting in cfgs:
             dd = d if container is None else max(2, d - 1)
-            th = "TUF" if (theme == "TU" and container is not None) else theme
+            th = theme + "F" if (theme in ("TU", "T8") and container is not None) else theme
             res = engine.product_bfs(step, len(tw.THEMES[th]), dd, bisim_depth=max(0, dd - 2), ctx=(th, container, scripting))
             tot_s += res.states
             tot_t += res.transitions
